@@ -163,6 +163,22 @@ impl<'a, H: HashChain> InMemoryHssSignature<'a, H> {
 
         let signature = InMemoryLmsSignature::<'a, H>::new(&data[index..])?;
 
+        // The message signature must be exactly the rest of the input (RFC 8554, Algorithm 6a)
+        let signature_len = lms_signature_length(
+            signature
+                .lmots_signature
+                .lmots_parameter
+                .get_hash_function_output_size(),
+            signature
+                .lmots_signature
+                .lmots_parameter
+                .get_num_winternitz_chains() as usize,
+            signature.lms_parameter.get_tree_height() as usize,
+        );
+        if data.len() - index != signature_len {
+            return None;
+        }
+
         Some(Self {
             level,
             signed_public_keys,
